@@ -626,15 +626,6 @@ func (d *partialDoc) add(key string, val *lazyNode, options *ApplyOptions) error
 }
 
 func (d *partialDoc) get(key string, options *ApplyOptions) (*lazyNode, error) {
-	if key == "" {
-		// Hand out a node of its own: the caller may parse and modify what
-		// it gets, and a shared self node could end up inside itself.
-		if d.self == nil {
-			return nil, nil
-		}
-		return newLazyNode(d.self.raw), nil
-	}
-
 	if d.obj == nil {
 		return nil, ErrExpectedObject
 	}
@@ -732,14 +723,6 @@ func (d *partialArray) add(key string, val *lazyNode, options *ApplyOptions) err
 }
 
 func (d *partialArray) get(key string, options *ApplyOptions) (*lazyNode, error) {
-	if key == "" {
-		// See partialDoc.get.
-		if d.self == nil {
-			return nil, nil
-		}
-		return newLazyNode(d.self.raw), nil
-	}
-
 	idx, err := strconv.Atoi(key)
 
 	if err != nil {
@@ -1171,16 +1154,7 @@ func (p Patch) copy(doc *container, op Operation, accumulatedCopySize *int64, op
 		return fmt.Errorf("copy operation failed to decode from: %w", err)
 	}
 
-	con, key := findObject(doc, from, options)
-
-	if con == nil {
-		return fmt.Errorf("copy operation does not apply: doc is missing from path: \"%s\": %w", from, ErrMissing)
-	}
-
-	val, err := con.get(key, options)
-	if err != nil {
-		return fmt.Errorf("error in copy for from: '%s': %w", from, err)
-	}
+	var val *lazyNode
 
 	if from == "" {
 		// The whole document: duplicate its current state, not the text
@@ -1194,6 +1168,19 @@ func (p Patch) copy(doc *container, op Operation, accumulatedCopySize *int64, op
 			val.ary = sv
 			val.which = eAry
 		}
+	} else {
+		// An empty reference token ("/a/") names the member called "",
+		// like any other token: only the empty pointer is the document.
+		con, key := findObject(doc, from, options)
+
+		if con == nil {
+			return fmt.Errorf("copy operation does not apply: doc is missing from path: \"%s\": %w", from, ErrMissing)
+		}
+
+		val, err = con.get(key, options)
+		if err != nil {
+			return fmt.Errorf("error in copy for from: '%s': %w", from, err)
+		}
 	}
 
 	path, err := op.Path()
@@ -1201,7 +1188,7 @@ func (p Patch) copy(doc *container, op Operation, accumulatedCopySize *int64, op
 		return fmt.Errorf("copy operation failed to decode path: %w", ErrMissing)
 	}
 
-	con, key = findObject(doc, path, options)
+	con, key := findObject(doc, path, options)
 
 	if con == nil {
 		return fmt.Errorf("copy operation does not apply: doc is missing destination path: %s: %w", path, ErrMissing)
